@@ -82,7 +82,7 @@ impl Report {
 
     pub fn add(&self, v: Violation) {
         self.raw_violations.fetch_add(1, Ordering::Relaxed);
-        let mut m = self.viols.lock().unwrap();
+        let mut m = self.viols.lock().unwrap_or_else(|e| e.into_inner());
         let key = (v.clause.clone(), v.sig.clone());
         match m.get(&key) {
             Some(old) if old.size <= v.size => {}
@@ -103,11 +103,11 @@ impl Report {
     }
 
     pub fn num_signatures(&self) -> usize {
-        self.viols.lock().unwrap().len()
+        self.viols.lock().unwrap_or_else(|e| e.into_inner()).len()
     }
 
     pub fn violations(&self) -> Vec<Violation> {
-        self.viols.lock().unwrap().values().cloned().collect()
+        self.viols.lock().unwrap_or_else(|e| e.into_inner()).values().cloned().collect()
     }
 
     /// Match against known findings, write replay files, print the verdict lines, write the
@@ -217,31 +217,31 @@ pub struct Stats {
 
 impl Stats {
     pub fn add(&self, k: &str, n: u64) {
-        *self.counters.lock().unwrap().entry(k.to_string()).or_insert(0) += n;
+        *self.counters.lock().unwrap_or_else(|e| e.into_inner()).entry(k.to_string()).or_insert(0) += n;
     }
     pub fn merge_local(&self, local: &BTreeMap<&'static str, u64>) {
-        let mut c = self.counters.lock().unwrap();
+        let mut c = self.counters.lock().unwrap_or_else(|e| e.into_inner());
         for (k, v) in local {
             *c.entry(k.to_string()).or_insert(0) += *v;
         }
     }
     pub fn get(&self, k: &str) -> u64 {
-        *self.counters.lock().unwrap().get(k).unwrap_or(&0)
+        *self.counters.lock().unwrap_or_else(|e| e.into_inner()).get(k).unwrap_or(&0)
     }
     pub fn sample(&self, v: Value) {
-        let mut s = self.samples.lock().unwrap();
+        let mut s = self.samples.lock().unwrap_or_else(|e| e.into_inner());
         if s.len() < 5 {
             s.push(v);
         }
     }
     pub fn outcome(&self, o: &str) {
-        let mut s = self.outcomes.lock().unwrap();
+        let mut s = self.outcomes.lock().unwrap_or_else(|e| e.into_inner());
         if s.len() < 10_000 && !s.contains(o) {
             s.insert(o.to_string());
         }
     }
     pub fn counters_json(&self) -> Value {
-        let c = self.counters.lock().unwrap();
+        let c = self.counters.lock().unwrap_or_else(|e| e.into_inner());
         json!(*c)
     }
 }
@@ -260,9 +260,9 @@ impl Default for FpSet {
 impl FpSet {
     /// returns true if newly inserted
     pub fn insert(&self, fp: u128) -> bool {
-        self.shards[(fp as usize) & 63].lock().unwrap().insert(fp)
+        self.shards[(fp as usize) & 63].lock().unwrap_or_else(|e| e.into_inner()).insert(fp)
     }
     pub fn len(&self) -> usize {
-        self.shards.iter().map(|s| s.lock().unwrap().len()).sum()
+        self.shards.iter().map(|s| s.lock().unwrap_or_else(|e| e.into_inner()).len()).sum()
     }
 }
